@@ -478,6 +478,34 @@ example : corrupted exampleWorld = false := by
 
 /-! ### the in-rolling dispatch (C10, C02.iii) -/
 
+theorem cs_reason (ro ns : Rollout) (w : WL) (h : calculateStatus ro (some w) = some ns)
+    (hph : ro.phase = .progressing) : ns.reason = ro.reason := by
+  unfold calculateStatus at h
+  split at h
+  · injection h with h; subst h; split <;> rfl
+  · dsimp only at h
+    split at h
+    · cases h
+    · injection h with h; subst h
+      have e1 : (csInitial (csDisable ro)).reason = ro.reason ∧
+          ((csInitial (csDisable ro)).phase = .progressing ∨ (csInitial (csDisable ro)).phase = .disabling) := by
+        unfold csInitial csDisable
+        repeat' split
+        all_goals simp_all
+      have e2 : (csObserve (csInitial (csDisable ro)) w).reason = (csInitial (csDisable ro)).reason ∧
+          (csObserve (csInitial (csDisable ro)) w).phase = (csInitial (csDisable ro)).phase := by
+        unfold csObserve
+        repeat' split
+        all_goals exact ⟨rfl, rfl⟩
+      have e3 : (csPhase ro (csObserve (csInitial (csDisable ro)) w) w).reason = (csObserve (csInitial (csDisable ro)) w).reason := by
+        unfold csPhase
+        split
+        · rfl
+        · rename_i hp; rw [e2.2] at hp; rcases e1.2 with h' | h' <;> rw [h'] at hp <;> cases hp
+        · split <;> rfl
+        · rfl
+      rw [e3, e2.1, e1.1]
+
 theorem cs_some (ro : Rollout) (wl : WL) (h : wl.consistent = true) : ∃ ns, calculateStatus ro (some wl) = some ns := by
   unfold calculateStatus
   split
@@ -488,7 +516,7 @@ theorem cs_some (ro : Rollout) (wl : WL) (h : wl.consistent = true) : ∃ ns, ca
 theorem reconcile_inRolling (w : World) (wl : WL) (os : Sub)
     (hph : w.ro.phase = .progressing) (hr : w.ro.reason = .inRolling) (hwl : w.wl = some wl)
     (hc : wl.consistent = true) (hos : w.ro.sub = some os) :
-    ∃ ns s, Same w.ro ns ∧ ns.sub = some s ∧ subCore s = subCore os ∧
+    ∃ ns s, Same w.ro ns ∧ ns.sub = some s ∧ subCore s = subCore os ∧ ns.reason = w.ro.reason ∧
       reconcile w =
         (match inRolling w w.ro ns s wl with
          | .panic => .panic
@@ -513,7 +541,9 @@ theorem reconcile_inRolling (w : World) (wl : WL) (os : Sub)
       obtain ⟨a1, a2, a3, a4, a5, a6, a7, a8, a9⟩ := hsame
       rw [hfr] at a1 a2 a3 a4 a5 a6 a7 a8 a9
       exact ⟨a1, a2, a3, a4, a5, a6, a7, a8, a9⟩
-    refine ⟨ns, s, hsame', hs, hrel, ?_⟩
+    have hreason : ns.reason = w.ro.reason := by
+      rw [cs_reason _ ns wl hcs (by rw [e_phase]; exact hph), hfr]
+    refine ⟨ns, s, hsame', hs, hrel, hreason, ?_⟩
     unfold reconcile
     dsimp only
     rw [hwl, hcs]
@@ -539,7 +569,7 @@ theorem rollback_first (w : World) (r : StepResult) (h : reconcile w = .val r) :
       unfold inRollingNow at hin
       simp only [Bool.and_eq_true, decide_eq_true_eq, Bool.not_eq_true'] at hin
       obtain ⟨⟨hph, hr⟩, _⟩ := hin
-      obtain ⟨ns, s, hsame, hs, hcore, hrec⟩ := reconcile_inRolling w wl os hph hr hwl hcons hos
+      obtain ⟨ns, s, hsame, hs, hcore, hreason, hrec⟩ := reconcile_inRolling w wl os hph hr hwl hcons hos
       rw [hrec] at h
       -- the first branch of the dispatch
       have hbr : inRolling w w.ro ns s wl =
@@ -605,7 +635,7 @@ theorem paused_no_progress (w : World) (r : StepResult) (h : reconcile w = .val 
         subst h
         simp [hnsub, hwl]
       | some os =>
-        obtain ⟨ns, s, hsame, hs, hcore, hrec⟩ := reconcile_inRolling w wl os hph hr hwl hcons hos
+        obtain ⟨ns, s, hsame, hs, hcore, hreason, hrec⟩ := reconcile_inRolling w wl os hph hr hwl hcons hos
         rw [hrec, hhf] at h
         have hbr : inRolling w w.ro ns s wl =
             .val { w := { w with ro := { ns with reason := .paused } }, roGone := false, requeue := false, err := false, writes := [] } := by
@@ -620,4 +650,794 @@ theorem paused_no_progress (w : World) (r : StepResult) (h : reconcile w = .val 
         simp only [subCore, Prod.mk.injEq] at hcore
         simp [hs, hcore.1, hcore.2.2.1]
     · rfl
+  · rfl
+
+/-! ### C18 — the Rollout's own finalizer (whole reconcile) -/
+
+theorem cs_fin (ro ns : Rollout) (wl : Option WL) (h : calculateStatus ro wl = some ns) :
+    ns.hasFinalizer = ro.hasFinalizer ∧ (ro.deleting = false → ns.term = ro.term ∨ (wl = none ∧ ro.disabled = false ∧ ns.term = .none)) ∧
+    (ro.deleting = true → ns.term = ro.term ∨ (ro.phase ≠ .terminating ∧ ns.term = .inTerminating)) := by
+  unfold calculateStatus at h
+  split at h
+  · rename_i hd
+    injection h with h; subst h
+    split
+    · rename_i hp; exact ⟨rfl, fun h' => (by rw [hd] at h'; cases h'), fun _ => Or.inr ⟨hp, rfl⟩⟩
+    · exact ⟨rfl, fun _ => Or.inl rfl, fun _ => Or.inl rfl⟩
+  · rename_i hd
+    have hd' : ro.deleting = false := by simpa using hd
+    dsimp only at h
+    have e1 : (csInitial (csDisable ro)).hasFinalizer = ro.hasFinalizer ∧ (csInitial (csDisable ro)).term = ro.term := by
+      unfold csInitial csDisable
+      repeat' split
+      all_goals exact ⟨rfl, rfl⟩
+    split at h
+    · split at h
+      · rename_i hnd
+        injection h with h; subst h
+        exact ⟨e1.1, fun _ => Or.inr ⟨rfl, (by simpa using hnd), rfl⟩, fun h' => (by rw [hd'] at h'; cases h')⟩
+      · injection h with h; subst h
+        exact ⟨e1.1, fun _ => Or.inl e1.2, fun h' => (by rw [hd'] at h'; cases h')⟩
+    · rename_i w
+      split at h
+      · cases h
+      · injection h with h; subst h
+        have e2 : (csPhase ro (csObserve (csInitial (csDisable ro)) w) w).hasFinalizer = (csInitial (csDisable ro)).hasFinalizer ∧
+            (csPhase ro (csObserve (csInitial (csDisable ro)) w) w).term = (csInitial (csDisable ro)).term := by
+          unfold csPhase csObserve
+          repeat' split
+          all_goals exact ⟨rfl, rfl⟩
+        exact ⟨e2.1.trans e1.1, fun _ => Or.inl (e2.2.trans e1.2), fun h' => (by rw [hd'] at h'; cases h')⟩
+
+theorem inRolling_fin (w : World) (old ns : Rollout) (s : Sub) (wl : WL) (r : StepResult)
+    (h : inRolling w old ns s wl = .val r) :
+    r.w.ro.hasFinalizer = ns.hasFinalizer ∧ r.w.ro.term = ns.term ∧ r.roGone = false := by
+  unfold inRolling at h
+  dsimp only at h
+  repeat' split at h
+  all_goals first
+    | (cases h; done)
+    | (cases h; exact ⟨rfl, rfl, rfl⟩)
+
+theorem finalise_fin (w w' : World) (ns : Rollout) (wl : Option WL) (reason : Reason) (wr done err : Bool) (ws : List String)
+    (h : finalise w ns wl reason wr = some (w', done, err, ws)) :
+    w'.ro.hasFinalizer = ns.hasFinalizer ∧ w'.ro.term = ns.term ∧
+    (done = true → w'.ro.sub = none ∨ ∃ s', w'.ro.sub = some s' ∧ s'.finStep = .end_) := by
+  unfold finalise at h
+  split at h
+  · injection h with h
+    simp only [Prod.mk.injEq] at h
+    obtain ⟨hw, _, _, _⟩ := h
+    subst hw
+    have hn : ns.sub = none := by assumption
+    exact ⟨rfl, rfl, fun _ => Or.inl hn⟩
+  · split at h
+    · dsimp only at h
+      split at h
+      · cases h
+      · rename_i c d e hd
+        injection h with h
+        simp only [Prod.mk.injEq] at h
+        obtain ⟨hw, hdn, _, _⟩ := h
+        subst hw; subst hdn
+        refine ⟨rfl, rfl, fun hdone => Or.inr ⟨c.sub, rfl, ?_⟩⟩
+        exact ((doFinalising_cursor _ _ _ _ _ _ hd).1 hdone).1
+    · split at h
+      · split at h
+        · cases h
+        · rename_i c d e hd
+          injection h with h
+          simp only [Prod.mk.injEq] at h
+          obtain ⟨hw, hdn, _, _⟩ := h
+          subst hw; subst hdn
+          refine ⟨rfl, rfl, fun hdone => Or.inr ⟨c.sub, rfl, ?_⟩⟩
+          exact ((doFinalising_cursor _ _ _ _ _ _ hd).1 hdone).1
+      · split at h
+        · cases h
+        · rename_i c d e hd
+          injection h with h
+          simp only [Prod.mk.injEq] at h
+          obtain ⟨hw, hdn, _, _⟩ := h
+          subst hw; subst hdn
+          refine ⟨rfl, rfl, fun hdone => Or.inr ⟨c.sub, rfl, ?_⟩⟩
+          exact ((doFinalising_cursor _ _ _ _ _ _ hd).1 hdone).1
+
+/-- every result of `reconcile`: whether the object disappeared, its finalizer flag, and how its
+    Terminating reason can have become Completed -/
+theorem reconcile_fin (w : World) (r : StepResult) (h : reconcile w = .val r) :
+    r.roGone = (handleFinalizer w.ro).2.1 ∧ r.w.ro.hasFinalizer = (handleFinalizer w.ro).1.hasFinalizer ∧
+    (r.w.ro.term = .completed → w.ro.term ≠ .completed →
+      r.w.ro.sub = none ∨ ∃ s', r.w.ro.sub = some s' ∧ s'.finStep = .end_) := by
+  have hfr := hf_frame w.ro
+  have e_term : (handleFinalizer w.ro).1.term = w.ro.term := by rw [hfr]
+  have e_del : (handleFinalizer w.ro).1.deleting = w.ro.deleting := by rw [hfr]
+  have e_phase : (handleFinalizer w.ro).1.phase = w.ro.phase := by rw [hfr]
+  unfold reconcile at h
+  dsimp only at h
+  split at h
+  · cases h
+    exact ⟨rfl, rfl, fun h1 h2 => absurd (e_term ▸ h1) h2⟩
+  · rename_i ns hcs
+    obtain ⟨cf, ct1, ct2⟩ := cs_fin _ ns w.wl hcs
+    -- the status calculation never sets Completed
+    have hnsT : ns.term = .completed → w.ro.term = .completed := by
+      intro hc
+      cases hd : w.ro.deleting with
+      | false =>
+        rcases ct1 (by rw [e_del]; exact hd) with h1 | ⟨_, _, h1⟩
+        · rw [← e_term, ← h1]; exact hc
+        · rw [h1] at hc; cases hc
+      | true =>
+        rcases ct2 (by rw [e_del]; exact hd) with h1 | ⟨_, h1⟩
+        · rw [← e_term, ← h1]; exact hc
+        · rw [h1] at hc; cases hc
+    have plain : ∀ ro' : Rollout, ro'.hasFinalizer = ns.hasFinalizer → ro'.term = ns.term →
+        (ro'.hasFinalizer = (handleFinalizer w.ro).1.hasFinalizer ∧
+         (ro'.term = .completed → w.ro.term ≠ .completed → ro'.sub = none ∨ ∃ s', ro'.sub = some s' ∧ s'.finStep = .end_)) :=
+      fun ro' h1 h2 => ⟨h1.trans cf, fun hc hn => absurd (hnsT (h2 ▸ hc)) hn⟩
+    have plain1 : ((handleFinalizer w.ro).1.term = .completed → w.ro.term ≠ .completed →
+        (handleFinalizer w.ro).1.sub = none ∨ ∃ s', (handleFinalizer w.ro).1.sub = some s' ∧ s'.finStep = .end_) :=
+      fun hc hn => absurd (e_term ▸ hc) hn
+    -- a finalise call: only the Terminating branch writes Completed, and only when done
+    have fin : ∀ (wl : Option WL) (reason : Reason) (wr : Bool) (w' : World) (done err : Bool) (ws : List String),
+        finalise w ns wl reason wr = some (w', done, err, ws) →
+        w'.ro.hasFinalizer = (handleFinalizer w.ro).1.hasFinalizer ∧ (w'.ro.term = .completed → w.ro.term = .completed) ∧
+        (done = true → w'.ro.sub = none ∨ ∃ s', w'.ro.sub = some s' ∧ s'.finStep = .end_) := by
+      intro wl reason wr w' done err ws hf
+      obtain ⟨f1, f2, f3⟩ := finalise_fin _ _ _ _ _ _ _ _ _ hf
+      exact ⟨f1.trans cf, fun hc => hnsT (f2 ▸ hc), f3⟩
+    -- closing tactics for the three kinds of leaves
+    have leafNs : ∀ (ro' : Rollout) (w0 : World) (rq e : Bool) (ws : List String),
+        Out.val { w := { w0 with ro := ro' }, roGone := (handleFinalizer w.ro).2.1, requeue := rq, err := e, writes := ws } = Out.val r →
+        ro'.hasFinalizer = ns.hasFinalizer → ro'.term = ns.term →
+        r.roGone = (handleFinalizer w.ro).2.1 ∧ r.w.ro.hasFinalizer = (handleFinalizer w.ro).1.hasFinalizer ∧
+        (r.w.ro.term = .completed → w.ro.term ≠ .completed → r.w.ro.sub = none ∨ ∃ s', r.w.ro.sub = some s' ∧ s'.finStep = .end_) := by
+      intro ro' w0 rq e ws hh h1 h2
+      cases hh
+      exact ⟨rfl, (plain ro' h1 h2).1, (plain ro' h1 h2).2⟩
+    have leafRo1 : ∀ (w0 : World) (rq e : Bool) (ws : List String),
+        Out.val { w := { w0 with ro := (handleFinalizer w.ro).1 }, roGone := (handleFinalizer w.ro).2.1, requeue := rq, err := e, writes := ws } = Out.val r →
+        r.roGone = (handleFinalizer w.ro).2.1 ∧ r.w.ro.hasFinalizer = (handleFinalizer w.ro).1.hasFinalizer ∧
+        (r.w.ro.term = .completed → w.ro.term ≠ .completed → r.w.ro.sub = none ∨ ∃ s', r.w.ro.sub = some s' ∧ s'.finStep = .end_) := by
+      intro w0 rq e ws hh
+      cases hh
+      exact ⟨rfl, rfl, plain1⟩
+    -- a finalising branch as a whole
+    have finBranch : ∀ (wl : Option WL) (reason : Reason) (wr : Bool) (upd : Rollout → Rollout),
+        (∀ x, (upd x).hasFinalizer = x.hasFinalizer ∧ (upd x).sub = x.sub ∧ ((upd x).term = x.term ∨ (upd x).term = .completed)) →
+        (match finalise w ns wl reason wr with
+         | none => Out.panic
+         | some (w', done, err, ws) =>
+           if err then .val { w := { w' with ro := (handleFinalizer w.ro).1 }, roGone := (handleFinalizer w.ro).2.1, requeue := false, err := true,
+                              writes := (handleFinalizer w.ro).2.2 ++ ws }
+           else if done then .val { w := { w' with ro := upd w'.ro }, roGone := (handleFinalizer w.ro).2.1, requeue := false, err := false,
+                                    writes := (handleFinalizer w.ro).2.2 ++ ws }
+           else .val { w := w', roGone := (handleFinalizer w.ro).2.1, requeue := true, err := false, writes := (handleFinalizer w.ro).2.2 ++ ws }) = Out.val r →
+        r.roGone = (handleFinalizer w.ro).2.1 ∧ r.w.ro.hasFinalizer = (handleFinalizer w.ro).1.hasFinalizer ∧
+        (r.w.ro.term = .completed → w.ro.term ≠ .completed → r.w.ro.sub = none ∨ ∃ s', r.w.ro.sub = some s' ∧ s'.finStep = .end_) := by
+      intro wl reason wr upd hupd hh
+      split at hh
+      · cases hh
+      · rename_i w' done err ws hfz
+        obtain ⟨f1, f2, f3⟩ := fin _ _ _ _ _ _ _ hfz
+        split at hh
+        · exact leafRo1 _ _ _ _ hh
+        · split at hh
+          · rename_i hdone
+            cases hh
+            obtain ⟨u1, u2, u3⟩ := hupd w'.ro
+            refine ⟨rfl, u1.trans f1, fun _ _ => ?_⟩
+            dsimp only
+            rw [u2]
+            exact f3 hdone
+          · cases hh
+            exact ⟨rfl, f1, fun hc hn => absurd (f2 hc) hn⟩
+    split at h
+    · -- Progressing
+      split at h
+      · exact leafNs _ _ _ _ _ h rfl rfl
+      · rename_i wl hwl
+        split at h
+        · exact leafNs _ _ _ _ _ h rfl rfl
+        · split at h
+          · cases h
+          · -- initializing
+            split at h
+            · cases h
+            · split at h
+              · exact leafRo1 _ _ _ _ h
+              · split at h
+                · exact leafNs _ _ _ _ _ h rfl rfl
+                · exact leafNs _ _ _ _ _ h rfl rfl
+          · -- inRolling
+            split at h
+            · split at h
+              · cases h
+              · split at h
+                · exact leafNs _ _ _ _ _ h rfl rfl
+                · cases h
+            · split at h
+              · cases h
+              · rename_i r0 hir
+                obtain ⟨i1, i2, _⟩ := inRolling_fin _ _ _ _ _ _ hir
+                split at h
+                · exact leafRo1 _ _ _ _ h
+                · cases h
+                  exact ⟨rfl, i1.trans cf, fun hc hn => absurd (hnsT (i2 ▸ hc)) hn⟩
+          · exact finBranch (some wl) .success true (fun x => { x with reason := .completed, succeeded := some true })
+              (fun x => ⟨rfl, rfl, Or.inl rfl⟩) h
+          · split at h
+            · exact leafNs _ _ _ _ _ h rfl rfl
+            · exact leafNs _ _ _ _ _ h rfl rfl
+          · exact finBranch (some wl) .rollback false (fun x => { x with reason := .completed, succeeded := some false })
+              (fun x => ⟨rfl, rfl, Or.inl rfl⟩) h
+          · exact leafNs _ _ _ _ _ h rfl rfl
+          · exact leafNs _ _ _ _ _ h rfl rfl
+    · -- Terminating
+      split at h
+      · cases h
+      · exact leafNs _ _ _ _ _ h rfl rfl
+      · exact finBranch w.wl .other false (fun x => { x with term := .completed }) (fun x => ⟨rfl, rfl, Or.inr rfl⟩) h
+    · -- Disabling
+      exact finBranch w.wl .other false (fun x => { x with phase := .disabled }) (fun x => ⟨rfl, rfl, Or.inl rfl⟩) h
+    · exact leafNs _ _ _ _ _ h rfl rfl
+
+/-- **C18 (Rollout, whole reconcile)** — for every world and every result of one reconcile: the Rollout
+    object disappears / loses its own finalizer only while it is being deleted and its Terminating
+    condition already says Completed; and that condition becomes Completed only in a reconcile whose
+    clean-up sequence ended with the cursor at END (or there was nothing to clean up). -/
+theorem finalizer_guard (w : World) (r : StepResult) (h : reconcile w = .val r) : finalizerGuard w r = true := by
+  obtain ⟨g1, g2, g3⟩ := reconcile_fin w r h
+  obtain ⟨h1, h2, _⟩ := handleFinalizer_guard w.ro
+  unfold finalizerGuard
+  rw [Bool.and_eq_true]
+  constructor
+  · split
+    · rename_i hc
+      rcases hc with hc | ⟨hf, hnf⟩
+      · rw [g1] at hc
+        obtain ⟨a, b, _⟩ := h1 hc
+        simp [a, b]
+      · rw [g2] at hnf
+        obtain ⟨a, b⟩ := h2 (by simpa using hnf) hf
+        simp [a, b]
+    · rfl
+  · split
+    · rename_i hc
+      rcases g3 hc.1 hc.2 with hn | ⟨s', hs, he⟩
+      · rw [hn]
+      · rw [hs]; simp [he]
+    · rfl
+
+/-! ### C10 — blue-green refuses a newer revision (whole reconcile) -/
+
+theorem bluegreen_refuses_continuous (w : World) (r : StepResult) (h : reconcile w = .val r) :
+    blueGreenRefusesContinuous w r = true := by
+  unfold blueGreenRefusesContinuous
+  split
+  · rename_i os wl hos hwl
+    split
+    · rename_i hc
+      obtain ⟨hin, hcons, hnrb, hnp, hbg, hne, hrev⟩ := hc
+      unfold inRollingNow at hin
+      simp only [Bool.and_eq_true, decide_eq_true_eq, Bool.not_eq_true'] at hin
+      obtain ⟨⟨hph, hr⟩, _⟩ := hin
+      obtain ⟨ns, s, hsame, hs, hcore, hreason, hrec⟩ := reconcile_inRolling w wl os hph hr hwl hcons hos
+      rw [hrec] at h
+      have hbr : inRolling w w.ro ns s wl =
+          .val { w := { w with ro := ns }, roGone := false, requeue := false, err := false, writes := [] } := by
+        unfold inRolling
+        dsimp only
+        rw [hos]
+        dsimp only
+        rw [if_neg (by intro hh; exact hnrb hh.1), if_neg (by rw [hsame.2.2.2.1]; exact hnp),
+            if_neg (by intro hh; exact hnrb hh.1), if_pos ⟨hne, hrev, hnrb⟩, if_pos (by rw [hsame.2.2.1]; exact hbg)]
+      rw [hbr] at h
+      simp only [Bool.false_eq_true, if_false, Out.val.injEq] at h
+      subst h
+      simp only [subCore, Prod.mk.injEq] at hcore
+      simp [hs, hcore.1, hcore.2.2.1, hreason, hr]
+    · rfl
+  · rfl
+
+/-! ### C02.ii — the controller never leaves a jump request behind (whole reconcile) -/
+
+/-- no step jump is requested in this status (Prop mirror of `jumpRequested … = false`) -/
+def NoReq (ro : Rollout) (s : Sub) : Prop :=
+  ¬ (s.nextIdx ≠ nextBatchIndex ro.steps.length s.curIdx ∧ 0 < s.nextIdx ∧ s.nextIdx ≤ ro.steps.length)
+
+theorem noReq_iff (ro : Rollout) (s : Sub) : jumpRequested ro s = false ↔ NoReq ro s := by
+  unfold jumpRequested NoReq
+  simp only [decide_eq_false_iff_not, gt_iff_lt]
+
+theorem NoReq.congr {ro ro' : Rollout} {s s' : Sub} (h : NoReq ro s) (hs : ro'.steps = ro.steps)
+    (h1 : s'.curIdx = s.curIdx) (h2 : s'.nextIdx = s.nextIdx) : NoReq ro' s' := by
+  unfold NoReq at *; rw [hs, h1, h2]; exact h
+
+theorem NoReq.natural (ro : Rollout) (s : Sub) (h : s.nextIdx = nextBatchIndex ro.steps.length s.curIdx) : NoReq ro s := by
+  unfold NoReq; intro ⟨h1, _⟩; exact h1 h
+
+/-- whatever the status said before, after `doCanaryJump` no request is pending -/
+theorem jump_noreq (ro : Rollout) (s s' : Sub) (j : Bool) (h : doCanaryJump ro s = some (s', j)) : NoReq ro s' := by
+  unfold doCanaryJump at h
+  dsimp only at h
+  split at h
+  · cases h
+  · split at h
+    · split at h
+      · cases h
+      · injection h with h
+        simp only [Prod.mk.injEq] at h
+        obtain ⟨hs, _⟩ := h
+        subst hs
+        exact NoReq.natural _ _ rfl
+    · rename_i hn
+      injection h with h
+      simp only [Prod.mk.injEq] at h
+      obtain ⟨hs, _⟩ := h
+      subst hs
+      unfold NoReq
+      intro ⟨h1, h2, _⟩
+      exact hn ⟨h1, h2⟩
+
+theorem afterRetry_next (r : Option (Ctx × Bool × Bool)) (k : Ctx → RunOut) (c0 c' : Ctx) (err : Bool)
+    (hr : ∀ c1 rt e, r = some (c1, rt, e) → c1.sub.curIdx = c0.sub.curIdx ∧ c1.sub.nextIdx = c0.sub.nextIdx)
+    (hk : ∀ c1, c1.sub.curIdx = c0.sub.curIdx ∧ c1.sub.nextIdx = c0.sub.nextIdx → k c1 = .ok c' err →
+      c'.sub.curIdx = c0.sub.curIdx ∧ c'.sub.nextIdx = c0.sub.nextIdx)
+    (h : afterRetryCall r k = .ok c' err) : c'.sub.curIdx = c0.sub.curIdx ∧ c'.sub.nextIdx = c0.sub.nextIdx := by
+  obtain ⟨c1, rt, e, hcall, hcase⟩ := afterRetryCall_spec _ _ _ _ h
+  have h1 := hr c1 rt e hcall
+  rcases hcase with ⟨hc, _⟩ | ⟨hc, _⟩ | ⟨_, _, hk'⟩
+  · subst hc; exact h1
+  · subst hc; exact h1
+  · exact hk c1 h1 hk'
+
+theorem upgradeStep_next (ro : Rollout) (step : Step) (c c' : Ctx) (err : Bool) (h : upgradeStep ro step c = .ok c' err) :
+    c'.sub.curIdx = c.sub.curIdx ∧ c'.sub.nextIdx = c.sub.nextIdx := by
+  obtain ⟨a, b, _⟩ := upgradeStep_spec _ _ _ _ _ h
+  exact ⟨a, b⟩
+
+theorem callOpt_next (c c1 : Ctx) (p : Prop) [Decidable p] (f : TCtx → Net → Mem → TOut) (rt e : Bool)
+    (h : (if p then callTM f c else some (c, false, false)) = some (c1, rt, e)) :
+    c1.sub.curIdx = c.sub.curIdx ∧ c1.sub.nextIdx = c.sub.nextIdx := by
+  split at h
+  · obtain ⟨a, _, b, _⟩ := callTM_sub _ _ _ _ _ _ h; exact ⟨a, b⟩
+  · cases h; exact ⟨rfl, rfl⟩
+
+theorem initStep_next (ro : Rollout) (step : Step) (c c' : Ctx) (err : Bool) (h : initStep ro step c = .ok c' err) :
+    c'.sub.curIdx = c.sub.curIdx ∧ c'.sub.nextIdx = c.sub.nextIdx := by
+  unfold initStep at h
+  dsimp only at h
+  split at h
+  · split at h
+    · cases h; exact ⟨rfl, rfl⟩
+    · refine afterRetry_next _ _ c c' err (fun c1 rt e hh => callOpt_next c c1 _ _ rt e hh) (fun c1 h1 hk => ?_) h
+      refine afterRetry_next _ _ c1 c' err (fun c2 rt e hh => callOpt_next c1 c2 _ _ rt e hh) (fun c2 h2 hk2 => ?_) hk |>.imp (·.trans h1.1) (·.trans h1.2)
+      obtain ⟨a, b⟩ := upgradeStep_next _ _ _ _ _ hk2
+      exact ⟨a.trans h2.1, b.trans h2.2⟩
+  · refine afterRetry_next _ _ c c' err (fun c1 rt e hh => callOpt_next c c1 _ _ rt e hh) (fun c1 h1 hk => ?_) h
+    obtain ⟨a, b⟩ := upgradeStep_next _ _ _ _ _ hk
+    exact ⟨a.trans h1.1, b.trans h1.2⟩
+
+/-- one sub-state action either keeps (step, next step) or advances to the natural successor pair -/
+theorem stateStep_noreq (ro : Rollout) (step : Step) (c c' : Ctx) (err : Bool) (h : stateStep ro step c = .ok c' err)
+    (hn : NoReq ro c.sub) : NoReq ro c'.sub := by
+  have keep : c'.sub.curIdx = c.sub.curIdx ∧ c'.sub.nextIdx = c.sub.nextIdx → NoReq ro c'.sub :=
+    fun hk => hn.congr rfl hk.1 hk.2
+  unfold stateStep at h
+  split at h
+  · exact keep (initStep_next _ _ _ _ _ h)
+  · exact keep (upgradeStep_next _ _ _ _ _ h)
+  · split at h
+    · cases h
+    · rename_i c4 d e hc
+      obtain ⟨a, _, b, _⟩ := callTM_sub _ _ _ _ _ _ hc
+      split at h
+      · cases h; exact keep ⟨a, b⟩
+      · split at h <;> (cases h; exact keep ⟨a, b⟩)
+  · cases h; exact keep ⟨rfl, rfl⟩
+  · split at h
+    · cases h
+    · cases h; exact keep ⟨rfl, rfl⟩
+    · cases h; exact keep ⟨rfl, rfl⟩
+  · dsimp only at h
+    split at h
+    · cases h; exact NoReq.natural _ _ rfl
+    · cases h; exact keep ⟨rfl, rfl⟩
+  · cases h; exact keep ⟨rfl, rfl⟩
+
+/-- **one round of the release manager never leaves a jump request behind** — whatever was requested -/
+theorem runCanary_noreq (c0 c' : Ctx) (err : Bool) (h : runCanary c0 = .ok c' err) : NoReq c0.ro c'.sub := by
+  obtain ⟨y1, y2, _, _, _⟩ := syncStep_sub c0
+  unfold runCanary at h
+  dsimp only at h
+  split at h
+  · cases h
+  · rename_i s2 hj
+    cases h
+    exact jump_noreq _ _ _ _ hj
+  · rename_i s2 hj
+    have hn2 := jump_noreq _ _ _ _ hj
+    split at h
+    · cases h
+    · rename_i step _
+      split at h
+      · cases h
+      · rename_i c3 d e hpre
+        have hc3 : c3.sub.curIdx = s2.curIdx ∧ c3.sub.nextIdx = s2.nextIdx := by
+          unfold preStep at hpre
+          split at hpre
+          · obtain ⟨a, _, b, _⟩ := callTM_sub _ _ _ _ _ _ hpre; exact ⟨a, b⟩
+          · cases hpre; exact ⟨rfl, rfl⟩
+        have hn3 : NoReq c0.ro c3.sub := hn2.congr rfl hc3.1 hc3.2
+        split at h
+        · cases h; exact hn3
+        · split at h
+          · cases h; exact hn3
+          · exact stateStep_noreq _ _ _ _ _ h hn3
+
+theorem prStage3_next (c c' : Ctx) (d e : Bool) (h : prStage3 c = some (c', d, e)) :
+    c'.sub.curIdx = c.sub.curIdx ∧ c'.sub.nextIdx = c.sub.nextIdx := by
+  unfold prStage3 at h
+  split at h
+  · cases h
+  · rename_i c1 _ _ hc
+    obtain ⟨a, _, b, _⟩ := callTM_sub _ _ _ _ _ _ hc
+    split at h <;> (cases h; exact ⟨a, b⟩)
+
+theorem prStage2_next (c c' : Ctx) (d e : Bool) (h : prStage2 c = some (c', d, e)) :
+    c'.sub.curIdx = c.sub.curIdx ∧ c'.sub.nextIdx = c.sub.nextIdx := by
+  unfold prStage2 at h
+  dsimp only at h
+  split at h
+  · cases h; exact ⟨rfl, rfl⟩
+  · have := prStage3_next _ _ _ _ h
+    exact this
+
+theorem reset_next (c c' : Ctx) (d e : Bool) (h : doProgressingReset c = some (c', d, e)) :
+    c'.sub.curIdx = c.sub.curIdx ∧ c'.sub.nextIdx = c.sub.nextIdx := by
+  have hcur : (prCursor c).sub.curIdx = c.sub.curIdx ∧ (prCursor c).sub.nextIdx = c.sub.nextIdx := by
+    unfold prCursor; split <;> exact ⟨rfl, rfl⟩
+  unfold doProgressingReset at h
+  split at h
+  · cases h; exact ⟨rfl, rfl⟩
+  · split at h
+    · cases h
+    · dsimp only at h
+      split at h
+      · split at h
+        · cases h
+        · rename_i c2 rt er hc
+          obtain ⟨a, _, b, _⟩ := callTM_sub _ _ _ _ _ _ hc
+          split at h
+          · cases h; exact ⟨a.trans hcur.1, b.trans hcur.2⟩
+          · obtain ⟨x, y⟩ := prStage2_next _ _ _ _ h
+            exact ⟨x.trans (a.trans hcur.1), y.trans (b.trans hcur.2)⟩
+      · obtain ⟨x, y⟩ := prStage2_next _ _ _ _ h
+        exact ⟨x.trans hcur.1, y.trans hcur.2⟩
+      · obtain ⟨x, y⟩ := prStage3_next _ _ _ _ h
+        exact ⟨x.trans hcur.1, y.trans hcur.2⟩
+
+theorem inRolling_noreq (w : World) (old ns : Rollout) (s : Sub) (wl : WL) (r : StepResult)
+    (hns : ns.sub = some s) (hn : NoReq ns s) (h : inRolling w old ns s wl = .val r) :
+    r.w.ro.steps = ns.steps ∧ ∀ s', r.w.ro.sub = some s' → NoReq ns s' := by
+  have keepS : ∀ s' : Sub, s'.curIdx = s.curIdx → s'.nextIdx = s.nextIdx → NoReq ns s' :=
+    fun s' h1 h2 => hn.congr rfl h1 h2
+  unfold inRolling at h
+  dsimp only at h
+  split at h
+  · -- no old sub-status
+    split at h
+    · cases h
+    · split at h
+      · cases h
+        refine ⟨rfl, fun s' hs' => ?_⟩
+        dsimp only at hs'; rw [hns] at hs'; cases hs'; exact hn
+      · cases h
+  · split at h
+    · cases h
+      refine ⟨rfl, fun s' hs' => ?_⟩
+      dsimp only at hs'; cases hs'; exact keepS _ rfl rfl
+    · split at h
+      · cases h
+        refine ⟨rfl, fun s' hs' => ?_⟩
+        dsimp only at hs'; rw [hns] at hs'; cases hs'; exact hn
+      · split at h
+        · cases h
+          refine ⟨rfl, fun s' hs' => ?_⟩
+          dsimp only at hs'; cases hs'; exact NoReq.natural _ _ rfl
+        · split at h
+          · -- continuous release
+            split at h
+            · cases h
+              refine ⟨rfl, fun s' hs' => ?_⟩
+              dsimp only at hs'; rw [hns] at hs'; cases hs'; exact hn
+            · split at h
+              · cases h
+              · rename_i c d e hreset
+                obtain ⟨a, b⟩ := reset_next _ _ _ _ hreset
+                unfold toCtx at a b
+                dsimp only at a b
+                split at h
+                · cases h
+                  refine ⟨rfl, fun s' hs' => ?_⟩
+                  unfold ofCtx at hs'; dsimp only at hs'; cases hs'; exact keepS _ a b
+                · split at h
+                  · cases h
+                    refine ⟨rfl, fun s' hs' => ?_⟩
+                    unfold ofCtx at hs'; dsimp only at hs'; cases hs'
+                  · cases h
+                    refine ⟨rfl, fun s' hs' => ?_⟩
+                    unfold ofCtx at hs'; dsimp only at hs'; cases hs'; exact keepS _ a b
+          · split at h
+            · -- plan changed
+              split at h
+              · cases h
+              · split at h
+                · cases h
+                  refine ⟨rfl, fun s' hs' => ?_⟩
+                  dsimp only at hs'; cases hs'; exact keepS _ rfl rfl
+                · split at h
+                  · cases h
+                  · rename_i s2 j hj
+                    cases h
+                    refine ⟨rfl, fun s' hs' => ?_⟩
+                    dsimp only at hs'; cases hs'; exact jump_noreq _ _ _ _ hj
+            · split at h
+              · cases h
+                refine ⟨rfl, fun s' hs' => ?_⟩
+                dsimp only at hs'; rw [hns] at hs'; cases hs'; exact hn
+              · split at h
+                · cases h
+                · rename_i c e hrun
+                  cases h
+                  refine ⟨rfl, fun s' hs' => ?_⟩
+                  unfold ofCtx at hs'; dsimp only at hs'; cases hs'
+                  have := runCanary_noreq _ _ _ hrun
+                  unfold toCtx at this
+                  exact this
+
+theorem finTask_next (c c' : Ctx) (wr rt e : Bool) (h : finTask c wr = some (c', rt, e)) :
+    c'.sub.curIdx = c.sub.curIdx ∧ c'.sub.nextIdx = c.sub.nextIdx ∧ c'.ro = c.ro := by
+  unfold finTask at h
+  split at h
+  all_goals first
+    | (dsimp only at h; cases h; exact ⟨rfl, rfl, rfl⟩)
+    | (cases h; exact ⟨rfl, rfl, rfl⟩)
+    | (obtain ⟨a, _, b, d, _⟩ := callTM_sub _ _ _ _ _ _ h; exact ⟨a, b, d⟩)
+
+theorem doFinalising_next (c c' : Ctx) (reason : Reason) (wr d e : Bool) (h : doFinalising c reason wr = some (c', d, e)) :
+    c'.sub.curIdx = c.sub.curIdx ∧ c'.sub.nextIdx = c.sub.nextIdx ∧ c'.ro = c.ro := by
+  obtain ⟨hs, hr⟩ := stripAnno_frame c
+  have hsc : ∀ nx, (startCursor (stripAnno c) nx).sub.curIdx = c.sub.curIdx ∧ (startCursor (stripAnno c) nx).sub.nextIdx = c.sub.nextIdx ∧
+      (startCursor (stripAnno c) nx).ro = c.ro := by
+    intro nx; unfold startCursor; split <;> (try dsimp only) <;> rw [hs, hr] <;> exact ⟨rfl, rfl, rfl⟩
+  unfold doFinalising at h
+  dsimp only at h
+  split at h
+  · cases h
+  · split at h
+    · cases h; rw [hs, hr]; exact ⟨rfl, rfl, rfl⟩
+    · split at h
+      · cases h; exact hsc _
+      · split at h
+        · cases h
+        · rename_i cr rt er hrun
+          obtain ⟨a, b, d0⟩ := finTask_next _ _ _ _ _ hrun
+          obtain ⟨x, y, z⟩ := hsc (nextTask (taskList (stripAnno c).ro.style reason) (stripAnno c).sub.finStep)
+          split at h <;> (cases h; exact ⟨a.trans x, b.trans y, d0.trans z⟩)
+
+theorem finalise_next (w w' : World) (ns : Rollout) (wl : Option WL) (reason : Reason) (wr done err : Bool) (ws : List String)
+    (h : finalise w ns wl reason wr = some (w', done, err, ws)) :
+    w'.ro.steps = ns.steps ∧ ∀ s', w'.ro.sub = some s' → ∃ s, ns.sub = some s ∧ s'.curIdx = s.curIdx ∧ s'.nextIdx = s.nextIdx := by
+  unfold finalise at h
+  split at h
+  · cases h
+    have hn : ns.sub = none := by assumption
+    exact ⟨rfl, fun s' hs' => by dsimp only at hs'; rw [hn] at hs'; cases hs'⟩
+  · rename_i s hs
+    have leaf : ∀ (c0 c : Ctx) (d e : Bool), doFinalising c0 reason wr = some (c, d, e) → c0.sub = s →
+        ∀ s', some c.sub = some s' → ∃ s0, ns.sub = some s0 ∧ s'.curIdx = s0.curIdx ∧ s'.nextIdx = s0.nextIdx := by
+      intro c0 c d e hd hc0 s' hs'
+      cases hs'
+      obtain ⟨a, b, _⟩ := doFinalising_next _ _ _ _ _ _ hd
+      exact ⟨s, hs, by rw [a, hc0], by rw [b, hc0]⟩
+    split at h
+    · dsimp only at h
+      split at h
+      · cases h
+      · rename_i c d e hd
+        cases h
+        exact ⟨rfl, fun s' hs' => leaf _ c _ _ hd rfl s' (by unfold ofCtx at hs'; exact hs')⟩
+    · split at h
+      · split at h
+        · cases h
+        · rename_i c d e hd
+          cases h
+          exact ⟨rfl, fun s' hs' => leaf _ c _ _ hd rfl s' (by unfold ofCtx at hs'; exact hs')⟩
+      · split at h
+        · cases h
+        · rename_i c d e hd
+          cases h
+          exact ⟨rfl, fun s' hs' => leaf _ c _ _ hd rfl s' (by unfold ofCtx at hs'; exact hs')⟩
+
+/-- the status calculation keeps (step, next step) of an existing sub-status, and a sub-status it
+    creates itself records the natural successor -/
+theorem cs_next (ro ns : Rollout) (wl : Option WL) (h : calculateStatus ro wl = some ns) :
+    ∀ s', ns.sub = some s' →
+      (∃ s, ro.sub = some s ∧ s'.curIdx = s.curIdx ∧ s'.nextIdx = s.nextIdx) ∨
+      s'.nextIdx = nextBatchIndex ns.steps.length s'.curIdx := by
+  intro s' hs'
+  unfold calculateStatus at h
+  split at h
+  · injection h with h; subst h
+    left
+    split at hs' <;> exact ⟨s', hs', rfl, rfl⟩
+  · dsimp only at h
+    obtain ⟨d1, d2⟩ := csDisable_same ro
+    obtain ⟨i1, i2⟩ := csInitial_same (csDisable ro)
+    split at h
+    · split at h
+      · injection h with h; subst h; cases hs'
+      · injection h with h; subst h
+        left; rw [i2, d2] at hs'; exact ⟨s', hs', rfl, rfl⟩
+    · rename_i w
+      split at h
+      · cases h
+      · injection h with h; subst h
+        -- csObserve keeps (cur, next); csPhase keeps the sub-status or creates the completed one
+        have hobs : ∀ t, (csObserve (csInitial (csDisable ro)) w).sub = some t →
+            ∃ s, ro.sub = some s ∧ t.curIdx = s.curIdx ∧ t.nextIdx = s.nextIdx := by
+          intro t ht
+          obtain ⟨_, o2, _⟩ := csObserve_same (csInitial (csDisable ro)) w
+          rw [ht, i2, d2] at o2
+          cases hro : ro.sub with
+          | none => rw [hro] at o2; simp at o2
+          | some s0 =>
+            rw [hro] at o2
+            simp only [Option.map_some, Option.some.injEq, subCore, Prod.mk.injEq] at o2
+            exact ⟨s0, rfl, o2.1, o2.2.1⟩
+        unfold csPhase at hs'
+        split at hs'
+        · left; exact hobs s' hs'
+        · split at hs'
+          · left; exact hobs s' hs'
+          · split at hs'
+            · dsimp only at hs'
+              cases hs'
+              right
+              rw [(csPhase_same ro _ w).1.1]
+            · left; exact hobs s' hs'
+        · split at hs' <;> (left; exact hobs s' hs')
+        · left; exact hobs s' hs'
+
+/-- **C02.ii (whole reconcile)** — for every world: if the status carries no jump request before a
+    reconcile (or there is no sub-status yet), it carries none afterwards.  Only a user writes a jump
+    request; the controller consumes it (`doCanaryJump`) and whenever it moves the step index itself it
+    records the natural successor. -/
+theorem no_self_jump (w : World) (r : StepResult) (h : reconcile w = .val r) : noSelfJump w r = true := by
+  unfold noSelfJump
+  split
+  · rename_i s' hs'
+    dsimp only
+    generalize hg : ((match w.ro.sub with | some s => !jumpRequested w.ro s | none => true) && !r.roGone) = g
+    cases g with
+    | false => simp
+    | true =>
+      simp only [if_true]
+      simp only [Bool.and_eq_true, Bool.not_eq_true'] at hg
+      obtain ⟨hhad, hng⟩ := hg
+      rw [Bool.not_eq_true', noReq_iff]
+      -- input: no request pending
+      have hin : ∀ s, w.ro.sub = some s → NoReq w.ro s := by
+        intro s hs
+        rw [hs] at hhad
+        exact (noReq_iff _ _).mp (by simpa using hhad)
+      have hfr := hf_frame w.ro
+      have e_steps : (handleFinalizer w.ro).1.steps = w.ro.steps := by rw [hfr]
+      have e_sub : (handleFinalizer w.ro).1.sub = w.ro.sub := by rw [hfr]
+      have hro1 : ∀ s, (handleFinalizer w.ro).1.sub = some s → NoReq (handleFinalizer w.ro).1 s :=
+        fun s hs => (hin s (e_sub ▸ hs)).congr e_steps rfl rfl
+      unfold reconcile at h
+      dsimp only at h
+      -- result carrying the untouched rollout
+      have leafRo1 : ∀ (w0 : World) (rq e : Bool) (ws : List String),
+          Out.val { w := { w0 with ro := (handleFinalizer w.ro).1 }, roGone := (handleFinalizer w.ro).2.1, requeue := rq, err := e, writes := ws } = Out.val r →
+          NoReq r.w.ro s' := by
+        intro w0 rq e ws hh
+        cases hh
+        exact hro1 s' hs'
+      split at h
+      · exact leafRo1 _ _ _ _ h
+      · rename_i ns hcs
+        obtain ⟨hsame, _⟩ := cs_frame _ ns w.wl hcs
+        have hnsteps : ns.steps = w.ro.steps := hsame.1.trans e_steps
+        have hns : ∀ s, ns.sub = some s → NoReq ns s := by
+          intro s hs
+          rcases cs_next _ ns w.wl hcs s hs with ⟨s0, h0, h1, h2⟩ | hnat
+          · exact (hro1 s0 h0).congr hsame.1 h1 h2
+          · exact NoReq.natural _ _ hnat
+        -- result carrying the new status with untouched sub-status and plan
+        have leafNs : ∀ (ro' : Rollout) (w0 : World) (rq e : Bool) (ws : List String),
+            Out.val { w := { w0 with ro := ro' }, roGone := (handleFinalizer w.ro).2.1, requeue := rq, err := e, writes := ws } = Out.val r →
+            ro'.sub = ns.sub → ro'.steps = ns.steps → NoReq r.w.ro s' := by
+          intro ro' w0 rq e ws hh h1 h2
+          cases hh
+          dsimp only at hs'
+          exact (hns s' (h1 ▸ hs')).congr h2 rfl rfl
+        have finBranch : ∀ (wl : Option WL) (reason : Reason) (wr : Bool) (upd : Rollout → Rollout),
+            (∀ x, (upd x).sub = x.sub ∧ (upd x).steps = x.steps) →
+            (match finalise w ns wl reason wr with
+             | none => Out.panic
+             | some (w', done, err, ws) =>
+               if err then .val { w := { w' with ro := (handleFinalizer w.ro).1 }, roGone := (handleFinalizer w.ro).2.1, requeue := false, err := true,
+                                  writes := (handleFinalizer w.ro).2.2 ++ ws }
+               else if done then .val { w := { w' with ro := upd w'.ro }, roGone := (handleFinalizer w.ro).2.1, requeue := false, err := false,
+                                        writes := (handleFinalizer w.ro).2.2 ++ ws }
+               else .val { w := w', roGone := (handleFinalizer w.ro).2.1, requeue := true, err := false, writes := (handleFinalizer w.ro).2.2 ++ ws }) = Out.val r →
+            NoReq r.w.ro s' := by
+          intro wl reason wr upd hupd hh
+          split at hh
+          · cases hh
+          · rename_i w' done err ws hfz
+            obtain ⟨f1, f2⟩ := finalise_next _ _ _ _ _ _ _ _ _ hfz
+            split at hh
+            · exact leafRo1 _ _ _ _ hh
+            · split at hh
+              · cases hh
+                obtain ⟨u1, u2⟩ := hupd w'.ro
+                dsimp only at hs'
+                rw [u1] at hs'
+                obtain ⟨s0, h0, h1, h2⟩ := f2 s' hs'
+                exact (hns s0 h0).congr (u2.trans f1) h1 h2
+              · cases hh
+                obtain ⟨s0, h0, h1, h2⟩ := f2 s' hs'
+                exact (hns s0 h0).congr f1 h1 h2
+        split at h
+        · -- Progressing
+          split at h
+          · exact leafNs _ _ _ _ _ h rfl rfl
+          · rename_i wl hwl
+            split at h
+            · exact leafNs _ _ _ _ _ h rfl rfl
+            · split at h
+              · cases h
+              · -- initializing: a fresh sub-status with the natural successor
+                split at h
+                · cases h
+                · split at h
+                  · exact leafRo1 _ _ _ _ h
+                  · split at h <;>
+                    (cases h; dsimp only at hs'; cases hs'; exact NoReq.natural _ _ rfl)
+              · -- inRolling
+                split at h
+                · split at h
+                  · cases h
+                  · split at h
+                    · exact leafNs _ _ _ _ _ h rfl rfl
+                    · cases h
+                · rename_i s hs
+                  split at h
+                  · cases h
+                  · rename_i r0 hir
+                    obtain ⟨i1, i2⟩ := inRolling_noreq _ _ _ _ _ _ hs (hns s hs) hir
+                    split at h
+                    · exact leafRo1 _ _ _ _ h
+                    · cases h
+                      exact (i2 s' hs').congr i1 rfl rfl
+              · exact finBranch (some wl) .success true (fun x => { x with reason := .completed, succeeded := some true })
+                  (fun x => ⟨rfl, rfl⟩) h
+              · split at h
+                · exact leafNs _ _ _ _ _ h rfl rfl
+                · exact leafNs _ _ _ _ _ h rfl rfl
+              · exact finBranch (some wl) .rollback false (fun x => { x with reason := .completed, succeeded := some false })
+                  (fun x => ⟨rfl, rfl⟩) h
+              · exact leafNs _ _ _ _ _ h rfl rfl
+              · exact leafNs _ _ _ _ _ h rfl rfl
+        · split at h
+          · cases h
+          · exact leafNs _ _ _ _ _ h rfl rfl
+          · exact finBranch w.wl .other false (fun x => { x with term := .completed }) (fun x => ⟨rfl, rfl⟩) h
+        · exact finBranch w.wl .other false (fun x => { x with phase := .disabled }) (fun x => ⟨rfl, rfl⟩) h
+        · exact leafNs _ _ _ _ _ h rfl rfl
   · rfl
